@@ -694,7 +694,7 @@ def mutate_entry(rng, e):
     if k == 'cl':
         return ('cl', rng.choice([0, 1, 0xFFFFFE, 0xFFFFFF, 0x1000000, -1]), e[2] if e[2] is None else rng.choice(INTS8 + BAD8))
     if k == 'cc':
-        return ('cc', rng.choice(INTS7 + BAD7), rng.choice([1, 2, 3, 0x13, 0xF1, 0, 0x0D, 0x101]), e[3] if e[3] is None else rng.choice(INTS16 + BAD16))
+        return ('cc', rng.choice([0, 1, 3, 4, 5, 5, 6, 0x7F] + BAD7), rng.choice([1, 2, 3, 0x13, 0xF1, 0, 0x0D, 0x101]), rng.choice([None, None, 0, 0x1234, 0xFFFF] + BAD16))
     if k in ('at', 'cd'):
         return (k, rng.choice(INTS7 + BAD7), e[2])
     return e
@@ -758,7 +758,23 @@ def canon_simple(e, std):
     raise ValueError(e)
 
 
-GENERATORS = [('rdbi', gen_rdbi), ('wdbi', gen_wdbi), ('io', gen_io), ('dtc', gen_dtc), ('wwh', gen_wwh), ('rft', gen_rft), ('auth', gen_auth), ('ddd', gen_ddd),
+def gen_cc(rng, n):
+    """communication_control: edition x control type x node id (the node-id rule has two sides: demanded, and not allowed)"""
+    from . import hist
+    out = []
+    for std in (2006, 2013, 2020):
+        for ct in (0, 1, 3, 4, 5, 6, 0x7F):
+            for node in (None, 0, 0x1234, 0xFFFF):
+                for comm in (0x01, 0x13) if rng.random() < 0.5 else (0x02,):
+                    e = ('cc', ct, comm, node)
+                    ok = in_domain_simple(e, std)
+                    line = 'enc e=simple entry=%s std=%d' % (hist.entry_str(e), std)
+                    out.append(Case('communication_control', (lambda c, e=e: hist.invoke_entry(c, e)), line, ok, canon_simple(e, std) if ok else None,
+                                    {'standard_version': std}, sid=0x28))
+    return out
+
+
+GENERATORS = [('cc', gen_cc), ('rdbi', gen_rdbi), ('wdbi', gen_wdbi), ('io', gen_io), ('dtc', gen_dtc), ('wwh', gen_wwh), ('rft', gen_rft), ('auth', gen_auth), ('ddd', gen_ddd),
               ('simple', gen_simple)]
 
 
